@@ -33,11 +33,11 @@ const prop = "C33"
 const (
 	// ioBound is the deadline set on every application end: an end that is
 	// still blocked then is a timing complaint.
-	ioBound = 60 * time.Second
+	ioBound = 30 * time.Second
 	// settleBound limits waiting for things that happen right after the ends
 	// finished: ForwardAndClose returning, counters reaching their final
 	// values, Pause / Terminate returning.
-	settleBound = 60 * time.Second
+	settleBound = 30 * time.Second
 	attempts    = 3
 )
 
@@ -376,7 +376,7 @@ func TestForwardAndClose(t *testing.T) {
 		t.Skip("replaying")
 	}
 	rec := ev.New(t, prop, "forward-and-close",
-		"rapid: 1..4 concurrent forwarding.ForwardAndClose calls between Unix socket pairs (real CloseWrite) sharing one context; each application end sends 0 B..1 MiB in drawn chunk sizes, starts at once or only after the other end's half-close arrived, and ends by half-close / holding the connection until EOF / abrupt close after a drawn prefix; optionally the context is cancelled once a drawn end has received a drawn number of bytes. Oracle: every end receives a prefix of what the other end wrote, the complete payload followed by a clean EOF when neither end aborted (and when the aborting end's peer sent nothing), all ends finish within 60 s (re-executed 3 times before reporting), ForwardAndClose returns and both its connections are closed, each auditor total lies between bytes received and bytes sent and equals bytes received for ends that read to the end. Non-trivial: an end answers only after the forwarded half-close, or cancellation hits after data arrived")
+		"rapid: 1..4 concurrent forwarding.ForwardAndClose calls between Unix socket pairs (real CloseWrite) sharing one context; each application end sends 0 B..1 MiB in drawn chunk sizes, starts at once or only after the other end's half-close arrived, and ends by half-close / holding the connection until EOF / abrupt close after a drawn prefix; optionally the context is cancelled once a drawn end has received a drawn number of bytes. Oracle: every end receives a prefix of what the other end wrote, the complete payload followed by a clean EOF when neither end aborted (and when the aborting end's peer sent nothing), all ends finish within 30 s (re-executed 3 times before reporting), ForwardAndClose returns and both its connections are closed, each auditor total lies between bytes received and bytes sent and equals bytes received for ends that read to the end. Non-trivial: an end answers only after the forwarded half-close, or cancellation hits after data arrived")
 	ev.Check(t, rec, 250, 4000, func(rt *rapid.T) {
 		c := &FwdCase{}
 		interrupted := rapid.IntRange(0, 3).Draw(rt, "cancel") == 0
